@@ -38,6 +38,7 @@ int main()
         DenseMatrix K = v8::restrict_square(Kbig, idx);  // mirrored kernels work by position in the range
         std::ostringstream out;
         std::cerr << "case " << op << " N=" << N << " k=" << f["k"] << " d=" << f["d"] << " " << f["method"] << "\n";
+#ifndef V8_NO_ROUTINES
         if (op == "lle")
         {
             Neighbors nb = v8::parse_neighbors(f["nb"]);
@@ -66,7 +67,14 @@ int main()
             SparseWeightMatrix M = hessian_weight_matrix(idx.begin(), idx.end(), nb, kcb, d);
             out << " nnz=" << M.nonZeros() << " M=" << show_matrix(DenseMatrix(M));
         }
-        else if (op == "embed")
+        else
+#else
+        // fallback build (the internal routines no longer have the signatures this harness calls): public API only
+        if (op == "lle" || op == "ltsa" || op == "hlle")
+            out << "unavailable=1";
+        else
+#endif
+        if (op == "embed")
         {
             const std::string method = f["method"];
             IndexType k = std::stoi(f["k"]), d = std::stoi(f["d"]);
